@@ -2,6 +2,8 @@
 From NL.Model Require Import VM Pipeline.
 From NL.Spec Require Import Sem Fragment Fragment2 Fragment2h.
 From NL.Proofs Require VMStepProofs VMIndexProofs CompileCorrectH5.
+From NL.Spec Require Import Sem Fragment Fragment2 Fragment2h Fragment3 Fragment4.
+From NL.Proofs Require CompileCorrectJ9 CompileCorrectJ10.
 Import VMStepProofs VMIndexProofs.
 Open Scope Z_scope.
 
@@ -105,6 +107,18 @@ Proof. exact CompileCorrectH5.failed_write_leaves_sequence_unchanged. Qed.
 Theorem failed_write_machine : forall (m : CompileCorrectH1.hst) (lhs idx v : val) (k : errkind) (out : text), CompileCorrectH2.hlift_o m (CompileCorrectH1.h_index_set m lhs idx v) = CompileCorrectH2.HErr k out -> out = CompileCorrectH1.hs_out m.
 Proof. exact CompileCorrectH5.failed_write_machine. Qed.
 
+(* SOURCE level, WHOLE language outside the exclusions of DESIGN 4.3 (functions, heap values, builtins together, collector running): the compiled program computes exactly what the definitional semantics assigns to the tree - which decides this property for every such program of the model *)
+Theorem compile_correct_F4 : forall (orc : oracle) (p : block), in_F4 p = true -> ends_expr p = true -> lits_exact (lits_b p) -> forall bc : bytecode, compile p = Ok bc -> forall fuel : nat, (size3_b p <= fuel)%nat -> sem_program orc fuel p <> SemFuel -> sem_small orc fuel p (length (b_constants bc)) -> (exists budget : nat, obs_eq4 (run_program orc bc budget) (sem_program orc fuel p)) \/ hits_excluded4 (CompileCorrectJ5.fun_table p) orc bc.
+Proof. exact CompileCorrectJ9.compile_correct_F4. Qed.
+
+(* an array passed to a function and modified there is modified for the caller: across a call every box keeps its partner with related contents *)
+Theorem arrays_shared_across_calls : forall (orc : oracle) (K : Z) (pl : list (const * val)) (Bd : Z), Bd + K + 1 < 2 ^ 60 -> forall (f : nat) (fv fv' : val) (vs vs' : list val) (yS yM : CompileCorrectJ2.yst) (R : loc_rel) (v : val) (y3 : CompileCorrectJ2.yst), CompileCorrectJ6.vrm R fv fv' -> Forall2 (CompileCorrectJ6.vrm R) vs vs' -> CompileCorrectJ7.YR K pl R yS yM -> CompileCorrectJ2.ycall orc CompileCorrectJ2.lit_fresh f fv vs yS = CompileCorrectJ2.YOk v y3 -> CompileCorrectJ3.yn y3 <= Bd -> exists (v' : val) (y3' : CompileCorrectJ2.yst) (R' : loc_rel), CompileCorrectJ2.ycall orc (CompileCorrectJ2.lit_pool pl) f fv' vs' yM = CompileCorrectJ2.YOk v' y3' /\ CompileCorrectH3.rel_incl R R' /\ CompileCorrectJ6.vrm R' v v' /\ CompileCorrectJ7.YR K pl R' y3 y3' /\ (forall l l' : positive, R l l' -> exists o o' : obj, h_get (CompileCorrectH1.hs_heap (CompileCorrectJ2.y_m y3)) l = Ok o /\ h_get (CompileCorrectH1.hs_heap (CompileCorrectJ2.y_m y3')) l' = Ok o' /\ CompileCorrectJ6.orm R' o o').
+Proof. exact CompileCorrectJ10.arrays_shared_across_calls. Qed.
+
+(* under the correspondence two references name one array in the semantics iff they name one array on the machine *)
+Theorem alias_same_F4 : forall (R : loc_rel) (hs hm : heap) (l1 l2 l1' l2' : positive) (vs : list val), graph_rel4 R hs hm -> R l1 l1' -> R l2 l2' -> get_arr hm l1' = Ok vs -> l1 = l2 <-> l1' = l2'.
+Proof. exact CompileCorrectJ10.alias_same_F4. Qed.
+
 
 Print Assumptions norm_index_spec.
 Print Assumptions index_get_array_ok.
@@ -131,3 +145,6 @@ Print Assumptions index_rule_source.
 Print Assumptions index_get_agrees.
 Print Assumptions failed_write_leaves_sequence_unchanged.
 Print Assumptions failed_write_machine.
+Print Assumptions compile_correct_F4.
+Print Assumptions arrays_shared_across_calls.
+Print Assumptions alias_same_F4.
